@@ -84,6 +84,104 @@ def r1(cx):
              "free_page no longer evicts the page from the node cache: a recycled page can be served with its old content")
 
 
+def _link_writes(b):
+    """(line, role of the node written, field, origin of the value) for every write of a leaf-chain link"""
+    res = []
+    for i, j, lhs, rv, line in b.assigns():
+        if i not in b.live:
+            continue
+        fs = [p for p in lhs[1:] if isinstance(p, list) and p[0] == "f"]
+        if not fs or fs[-1][2] not in ("prev_leaf", "next_leaf") or not fs[-1][3].endswith("LeafNode"):
+            continue
+        root = lhs[0]
+        if 1 <= root <= b.argc:
+            role = "param%d" % root
+        else:
+            ds = b.defs().get(root, [])
+            cs = [d[2].primary.split("::")[-1] for d in ds if d[0] == "call"]
+            role = "new" if "new" in cs else ("read" if any(x.startswith("extract_leaf") for x in cs) else "other")
+        o = origin_of_operand(b, rv[1]) if rv[0] == "use" else None
+        res.append((line, role, fs[-1][2], o))
+    return res
+
+
+@rule("C18", "C18.R4", "leaf chain: split and merge keep next/prev links mutually consistent")
+def r4(cx):
+    rule_leaf_chain(cx)
+
+
+def rule_leaf_chain(cx):
+    """Backward cursors walk prev_leaf, forward cursors next_leaf.  Necessary conditions decided here, by value
+    provenance: in split_leaf the NEW node is linked behind the old leaf and in front of the old successor
+    (old.next = new, new.prev = old, new.next = old's former next, successor.prev = new); in merge_leaf_nodes the
+    successor of the removed right node is linked back to the surviving left node."""
+    f = cx.f
+    b = f.body("BPlusTree::split_leaf")
+    lw = _link_writes(b)
+    cx.floor("link writes in split_leaf", len(lw), 4)
+    leafp = [i for i in range(1, b.argc + 1) if "LeafNode" in b.local_ty(i)]
+    if len(leafp) != 1:
+        raise AnchorMissing("split_leaf: expected one LeafNode parameter")
+    lp = leafp[0]
+
+    def names_new(o):
+        return o is not None and o.from_call("LeafNode::new") and not o.params
+
+    def names_old(o):
+        # (flow-insensitive: `*leaf` is later overwritten with LeafNode::new(leaf_offset), so that call may appear too)
+        return o is not None and any(p[0] == lp for p in o.params) and "offset" in {x[1] for x in o.fields}
+
+    seen = set()
+    for line, role, fld, o in lw:
+        w = "%s:%d" % (b.file, line)
+        if role == "read" and fld == "prev_leaf":
+            seen.add("succ.prev")
+            cx.check(names_new(o), "split: the old successor's prev_leaf names the new node", "split-link|succ.prev", w,
+                     "split_leaf links the old successor back to a node other than the newly created right half: a backward cursor stepping from the "
+                     "successor skips every entry of the new node (history/backward scans lose versions), and the wrong link is persisted")
+        elif role == "param%d" % lp and fld == "next_leaf":
+            seen.add("old.next")
+            cx.check(names_new(o), "split: the old leaf's next_leaf names the new node", "split-link|old.next", w,
+                     "split_leaf does not link the old leaf forward to the new right half: forward scans skip the new node")
+        elif role == "new" and fld == "prev_leaf":
+            seen.add("new.prev")
+            cx.check(names_old(o), "split: the new node's prev_leaf names the old leaf", "split-link|new.prev", w,
+                     "split_leaf gives the new node a prev_leaf that is not the old leaf's offset")
+        elif role == "new" and fld == "next_leaf":
+            seen.add("new.next")
+            cx.check(o is not None and ("next_leaf" in {x[1] for x in o.fields}) and any(p[0] == lp for p in o.params), "split: the new node inherits the old leaf's next_leaf",
+                     "split-link|new.next", w, "split_leaf gives the new node a next_leaf that is not the old leaf's former successor")
+    cx.check(seen >= {"succ.prev", "old.next", "new.prev", "new.next"}, "split_leaf writes all four links", "split-link|missing", b.where(),
+             "split_leaf no longer writes %s" % sorted({"succ.prev", "old.next", "new.prev", "new.next"} - seen))
+    # the successor that is re-linked is the node the new node now points to
+    for c in sites(cx, b, "BPlusTree::read_node"):
+        o = origin_of_operand(b, c.args[1])
+        cx.check("next_leaf" in {x[1] for x in o.fields}, "split: the node re-linked is the one at the inherited next_leaf", "split-link|which-successor", c.where())
+    m = f.body("BPlusTree::merge_leaf_nodes")
+    lwm = _link_writes(m)
+    left = [i for i in range(1, m.argc + 1) if m.local_ty(i).startswith("&mut") and "LeafNode" in m.local_ty(i)]
+    right = [i for i in range(1, m.argc + 1) if m.local_ty(i).endswith("LeafNode") and not m.local_ty(i).startswith("&")]
+    if len(left) != 1 or len(right) != 1:
+        raise AnchorMissing("merge_leaf_nodes: expected (&mut LeafNode left, LeafNode right) parameters")
+    sp = [x for x in lwm if x[1] == "read" and x[2] == "prev_leaf"]
+    cx.floor("successor re-link in merge_leaf_nodes", len(sp), 1)
+    for line, role, fld, o in sp:
+        ok = o is not None and {p[0] for p in o.params} == {left[0]} and "offset" in {x[1] for x in o.fields} and not o.calls
+        cx.check(ok, "merge: the successor's prev_leaf names the surviving left node", "merge-link|succ.prev", "%s:%d" % (m.file, line),
+                 "merge_leaf_nodes links the successor of the removed node back to something other than the surviving left node: backward cursors "
+                 "follow a freed page / skip entries")
+    for c in sites(cx, m, "BPlusTree::read_node"):
+        o = origin_of_operand(m, c.args[1])
+        cx.check({p[0] for p in o.params} == {right[0]} and "next_leaf" in {x[1] for x in o.fields}, "merge: the node re-linked is the removed node's successor",
+                 "merge-link|which-successor", c.where())
+    mr = f.body("LeafNode::merge_from_right")
+    nx = [x for x in _link_writes(mr) if x[2] == "next_leaf" and x[1] == "param1"]
+    cx.floor("merge_from_right inherits next_leaf", len(nx), 1)
+    for line, role, fld, o in nx:
+        cx.check(o is not None and {p[0] for p in o.params} == {2} and "next_leaf" in {x[1] for x in o.fields}, "merge: the survivor inherits the removed node's next_leaf",
+                 "merge-link|left.next", "%s:%d" % (mr.file, line))
+
+
 @rule("C18", "C18.R2", "one key order: every comparison uses the comparator stored in the tree")
 def r2(cx):
     f = cx.f
